@@ -329,7 +329,7 @@ func (k c14) negative(c *rt.Ctx, st *gen.Store) {
 	case 10: // REMOVE
 		switch r.Intn(3) {
 		case 0:
-			q, fault = "remove key", "forbidden-keyword"
+			q, fault = []string{"remove key", "remove int(key)", "remove 'k1', strlen(value)", "remove 1 + int(key)", "remove 'k1', 'k2', float(value) * 2"}[r.Intn(5)], "forbidden-keyword"
 		case 1:
 			q, fault = "remove 'a', 'b' + value", "forbidden-keyword"
 		default:
@@ -337,6 +337,8 @@ func (k c14) negative(c *rt.Ctx, st *gen.Store) {
 			q, fault = "remove 'a', "+gen.Print(n), "unknown-function"
 			if r.Bool() {
 				q, fault = "remove upper('a', 'b')", "arity"
+			} else if r.Bool() {
+				q, fault = []string{"remove 2 * 'a'", "remove 'k1', 7 - upper('x')", "remove strlen('a') + 'b'"}[r.Intn(3)], "operand-type"
 			}
 		}
 		pos = "remove"
